@@ -225,6 +225,33 @@ def main():
         if not ok:
             harness_problems.append("determinism: " + msg)
 
+        for script, extra in (("fidelity_fs.py", ["--programs", "60" if tier == "quick" else "600", "--seed", str(base % 1000)]),
+                              ("fidelity_pool.py", [])):
+            try:
+                p = subprocess.run([sys.executable, os.path.join(HERE, "selftest", script)] + extra, capture_output=True,
+                                   text=True, timeout=600)
+                line = p.stdout.strip().splitlines()[-1] if p.stdout.strip() else p.stderr[-500:]
+                notes["stub_" + script[:-3]] = json.loads(line) if p.returncode in (0, 1) and line.startswith("{") else line
+                if p.returncode != 0:
+                    harness_problems.append("stub fidelity %s: %s" % (script, line[:500]))
+            except Exception as e:
+                harness_problems.append("stub fidelity %s could not run: %r" % (script, e))
+        print("stub fidelity: " + json.dumps({k: v for k, v in notes.items() if k.startswith("stub_")})[:300])
+        # canaries: the oracle must still see small seeded defects
+        from selftest import canaries
+        det = {}
+        ncan = 600 if tier == "quick" else 3000
+        for cls in canaries.for_property(prop):
+            cagg = Agg()
+            seeds = [seed_for(base, 800_000 + i) for i in range(ncan)]
+            for r in run_parallel([("canary", prop, ch, {"canary": cls.name}) for ch in chunked(seeds, 40)], workers):
+                cagg.merge(r)
+            det[cls.name] = {"runs": cagg.n, "violating_runs": len(cagg.violations),
+                             "clauses": sorted({v["clause"] for v in cagg.violations})}
+        notes["canaries"] = det
+        notes["canaries_detected"] = "%d of %d" % (sum(1 for d in det.values() if d["violating_runs"]), len(det))
+        print("canaries: " + json.dumps(det))
+
     # 2. seeded swarm -----------------------------------------------------------
     def swarm(lo, hi):
         seeds = [seed_for(base, i) for i in range(lo, hi)]
